@@ -3,7 +3,7 @@
    Model: C14_Model.v (ContentSequence of sr/value_types.py; state = list, name
    index `lut`, is_root, is_sr).  [run s ops] = state after the history [ops]. *)
 From Coq Require Import String ZArith List Bool Permutation.
-From HD Require Import Base.Val Base.PySlice C14_Model C14_Proofs C14_Proofs_Ext C14_Proofs_Slice.
+From HD Require Import Base.Val Base.PySlice C14_Model C14_Proofs C14_Proofs_Ext C14_Proofs_Slice C14_Proofs_Refine C14_Proofs_SliceNth.
 Import ListNotations.
 Open Scope Z_scope.
 
@@ -414,3 +414,77 @@ Theorem C14_step_accepts_iff : forall s o,
    end).
 Proof. exact step_accepts_iff. Qed.
 Print Assumptions C14_step_accepts_iff.
+
+(* ======================= refinement: ContentSequence = plain list + admission rule + recomputed queries ==========
+   [ref_step root sr l o] / [xref_step root sr l o] (C14_Proofs_Refine.v) compute the next LIST from the list, the two
+   flags and the operation only (the Python list operation if [guard] lets it through, else the list unchanged; extend / +=:
+   the longest admissible prefix; pop / remove: one position removed; reverse: rev; clear: []).  They never see the
+   name index. *)
+Theorem C14_step_refines : forall s o,
+  (forall n, Permutation (lut s n) (filter (has n) (items s))) ->
+  items (fst (step s o)) = ref_step (is_root s) (is_sr s) (items s) o.
+Proof. exact step_refines. Qed.
+Print Assumptions C14_step_refines.
+
+Theorem C14_xstep_refines : forall s o,
+  (forall n, Permutation (lut s n) (filter (has n) (items s))) ->
+  Forall (fun x => init_check (is_root s) (is_sr s) x = None) (items s) ->
+  items (fst (xstep s o)) = xref_step (is_root s) (is_sr s) (items s) o.
+Proof. exact xstep_refines. Qed.
+Print Assumptions C14_xstep_refines.
+
+(* index as a function of the list alone *)
+Theorem C14_index_exact : forall s x,
+  (forall n, Permutation (lut s n) (filter (has n) (items s))) ->
+  index s x = if negb (is_item x) then Err ETYPE
+              else match pos_of x (items s) 0 with Some k => Ok k | None => Err EVALUE end.
+Proof. exact index_exact. Qed.
+Print Assumptions C14_index_exact.
+
+(* for every history of every operation from either constructor: the sequence IS the reference list L, and every
+   query is the corresponding function of L (find up to order) *)
+Theorem C14_refinement_all : forall c root sr s0 ops, construct c root sr = Ok s0 ->
+  let t := xrun s0 ops in
+  let L := fold_left (xref_step root sr) ops (match c with FromList l => l | FromSeq ds => map to_item ds end) in
+  items t = L /\
+  (forall n, exists r, find t n = Ok r /\ Permutation r (filter (has n) L)) /\
+  (forall x, index t x = if negb (is_item x) then Err ETYPE
+                         else match pos_of x L 0 with Some k => Ok k | None => Err EVALUE end) /\
+  (forall x, is_item x = true -> contains t x = Ok (existsb (fun y => item_eqb y x) L)) /\
+  (forall x, count t x = Z.of_nat (count_occ item_eq_dec L x)) /\
+  get_nodes t = Ok (filter inode L) /\
+  is_root t = root /\ is_sr t = sr.
+Proof. exact refinement_all. Qed.
+Print Assumptions C14_refinement_all.
+
+Example C14_refinement_example :
+  let a := Item true 0 1 false false 0 in let b := Item true 1 1 false true 1 in
+  let bad := Item true 2 0 false false 0 in
+  fold_left (xref_step false true)
+    [Op (Extend [b; bad; a]); Op (SetSlice None None (Some (-1)) [a; b; a]); Reverse; Pop (-1); Remove a; Op (DelInt 5)]
+    [a; a] = [b].
+Proof. vm_compute. reflexivity. Qed.
+Print Assumptions C14_refinement_example.
+
+(* the outcome of EVERY operation - error class, or the item pop returns - computed from list, flags and arguments
+   alone ([xoutcome], C14_Proofs_Refine.v): pop fails iff out of range, remove iff non-item (TypeError) / absent
+   (ValueError), reverse and clear never fail in a reachable state *)
+Theorem C14_xstep_outcome : forall s o,
+  (forall n, Permutation (lut s n) (filter (has n) (items s))) ->
+  Forall (fun x => init_check (is_root s) (is_sr s) x = None) (items s) ->
+  snd (xstep s o) = xoutcome s o.
+Proof. exact xstep_outcome. Qed.
+Print Assumptions C14_xstep_outcome.
+
+(* the model's list[a:b:c], element by element and in order, is Python's [list[f + k*s] for k in range(len(range(f,l,s)))]
+   with (f, l, s) = slice(a,b,c).indices(len(list)) - positive and negative steps; every index used is inside the list *)
+Theorem C14_slice_get_nth : forall start stop stp (xs : list item) f l s d, stp <> 0 ->
+  slice_indices start stop stp (zlen xs) = (f, l, s) ->
+  slice_get f l s xs = map (fun k => nth (Z.to_nat (f + Z.of_nat k * s)) xs d) (seq 0 (Z.to_nat (range_len f l s))).
+Proof. exact slice_get_nth. Qed.
+Print Assumptions C14_slice_get_nth.
+
+Theorem C14_slice_range_in_bounds : forall start stop stp len f l s k, stp <> 0 -> 0 <= len ->
+  slice_indices start stop stp len = (f, l, s) -> 0 <= k < range_len f l s -> 0 <= f + k * s < len.
+Proof. exact slice_range_in_bounds. Qed.
+Print Assumptions C14_slice_range_in_bounds.
